@@ -110,7 +110,7 @@ fn run_program(f: Fam, game: Game, text: &str, tag: &str, stats: &mut Stats) {
 struct G<'a> { rng: &'a mut Rng, fam: Fam, game: Game, regs: bool, jumps: bool, diffs: bool, strings: bool,
                ints: Vec<String>, floats: Vec<String>, labels_defined: Vec<String>, labels_wanted: Vec<String>, nlabel: usize, nvar: usize, consts: Vec<(String, bool)>,
                /// named parameters of the sub whose body is generated next
-               pre_ints: Vec<String>, pre_floats: Vec<String> }
+               pre_ints: Vec<String>, pre_floats: Vec<String>, nexplicit: usize }
 
 impl<'a> G<'a> {
     // MSG opcodes are stored in one byte
@@ -140,7 +140,7 @@ impl<'a> G<'a> {
     }
     fn stmt(&mut self, depth: usize, out: &mut String) {
         let ind = "    ".repeat(depth + 1);
-        match self.rng.below(16) {
+        match self.rng.below(20) {
             0 | 1 | 2 | 3 => { let (a, b) = (self.int_arg(), self.int_arg()); writeln!(out, "{}ins_{}({}, {});", ind, self.op_i(), a, b).unwrap(); }
             4 | 5 => { let (a, b) = (self.int_arg(), self.float_arg()); writeln!(out, "{}ins_{}({}, {});", ind, self.op_f(), a, b).unwrap(); }
             6 if self.strings => { let s = self.string_lit(); let op = if self.game == Game::Th08 || self.rng.chance(1, 2) { 16 } else { 17 }; writeln!(out, "{}ins_{}({});", ind, op, s).unwrap(); }
@@ -181,12 +181,38 @@ impl<'a> G<'a> {
                 writeln!(out, "{}    ins_{}({}, 1);", ind, self.op_i(), n).unwrap();
                 writeln!(out, "{}}}", ind).unwrap();
             }
+            // an instruction that no difficulty enables (it is still written, with difficulty mask 0)
+            16 if self.diffs => {
+                let lab = *self.rng.pick(&["", "-*", "*-ENHL4567"]);
+                writeln!(out, "{}{{\"{}\"}}: ins_{}({}, {});", ind, lab, self.op_i(), self.rng.range(0, 99), self.rng.range(0, 99)).unwrap();
+            }
+            // general-use (scratch pool) registers mentioned by number next to the locals
+            17 | 18 | 19 if self.regs && self.nexplicit < 2 && !self.pool().0.is_empty() => {
+                self.nexplicit += 1;
+                let (pi, pf) = self.pool();
+                if self.rng.chance(2, 3) {
+                    let r = *self.rng.pick(&pi);
+                    if self.rng.chance(1, 2) { writeln!(out, "{}$REG[{}] = {};", ind, r, self.rng.range(0, 9999)).unwrap(); }
+                    else { writeln!(out, "{}ins_{}($REG[{}], {});", ind, self.op_i(), r, self.rng.range(0, 99)).unwrap(); }
+                } else {
+                    let r = *self.rng.pick(&pf);
+                    writeln!(out, "{}%REG[{}] = {}.5;", ind, r, self.rng.range(0, 99)).unwrap();
+                }
+            }
             _ => { let (a, b) = (self.int_arg(), self.int_arg()); writeln!(out, "{}ins_{}({}, {});", ind, self.op_i(), a, b).unwrap(); }
+        }
+    }
+    /// the scratch-register pool of the language (ints, floats), where the generator knows it
+    fn pool(&self) -> (Vec<i32>, Vec<i32>) {
+        match (self.fam, self.game) {
+            (Fam::Anm, g) if g != Game::Th06 => (vec![10000, 10001, 10002, 10003, 10008, 10009], vec![10004, 10005, 10006, 10007]),
+            (Fam::Olde, Game::Th07) => (vec![10000, 10001, 10002, 10003], vec![10004, 10005, 10006, 10007]),
+            _ => (vec![], vec![]),
         }
     }
     fn body(&mut self) -> String {
         self.ints = std::mem::take(&mut self.pre_ints); self.floats = std::mem::take(&mut self.pre_floats);
-        self.labels_defined.clear(); self.labels_wanted.clear(); self.nvar = 0;
+        self.labels_defined.clear(); self.labels_wanted.clear(); self.nvar = 0; self.nexplicit = 0;
         let mut out = String::new();
         // every named parameter is used at least once
         for v in self.ints.clone() { writeln!(out, "    ins_{}({}, {});", self.op_i(), v, self.rng.range(0, 9)).unwrap(); }
@@ -248,12 +274,20 @@ fn program(fam: Fam, game: Game, rng: &mut Rng) -> String {
         writeln!(text, "const {} C{} = {};", if is_float[k] { "float" } else { "int" }, k, exprs[k]).unwrap();
         consts.push((format!("C{}", k), is_float[k]));
     }
-    let mut g = G { rng, fam, game, regs, jumps, diffs: fam == Fam::Olde, strings: fam == Fam::Msg, ints: vec![], floats: vec![], labels_defined: vec![], labels_wanted: vec![], nlabel: 0, nvar: 0, consts, pre_ints: vec![], pre_floats: vec![] };
+    let mut g = G { rng, fam, game, regs, jumps, diffs: fam == Fam::Olde, strings: fam == Fam::Msg, ints: vec![], floats: vec![], labels_defined: vec![], labels_wanted: vec![], nlabel: 0, nvar: 0, consts, pre_ints: vec![], pre_floats: vec![], nexplicit: 0 };
     match fam {
         Fam::Anm => {
             text.push_str("entry { path: \"a.png\", has_data: false, img_width: 16, img_height: 16, img_format: 1, sprites: { sp0: {x: 0.0, y: 0.0, w: 4.0, h: 4.0} } }\n");
             let n = 1 + g.rng.below(3);
-            for k in 0..n { let b = g.body(); writeln!(text, "script s{} {{\n{}}}", k, b).unwrap(); }
+            // explicit script numbers that differ from the position of the script in the file
+            let mut nums: Vec<u64> = (0..n).collect();
+            let numbered = g.rng.chance(1, 2);
+            if numbered { nums.rotate_left(1); if g.rng.chance(1, 2) { for x in nums.iter_mut() { *x = *x * 3 + 2; } } }
+            for k in 0..n {
+                let b = g.body();
+                if numbered { writeln!(text, "script {} s{} {{\n{}}}", nums[k as usize], k, b).unwrap(); }
+                else { writeln!(text, "script s{} {{\n{}}}", k, b).unwrap(); }
+            }
         }
         Fam::Msg => {
             let n = 1 + g.rng.below(3);
